@@ -73,7 +73,8 @@ def run_mode(d, case, mode, tag, in_bam=None, clean=True, timeout=120):
     sub = os.path.join(d, tag)
     os.makedirs(sub, exist_ok=True)
     out_bam = os.path.join(sub, 'out.bam')
-    res = pl.run_lifetime(sub, argv_for(case, in_bam, out_bam, sub, mode), sim_for(case, mode), timeout=timeout)
+    # the child runs with cwd = sub: relative paths keep random scratch names out of the output header (its size must be reproducible)
+    res = pl.run_lifetime(sub, argv_for(case, os.path.relpath(in_bam, sub), 'out.bam', '.', mode), sim_for(case, mode), timeout=timeout)
     o = {'res': res, 'status': pl.read_status(out_bam), 'out': out_bam, 'dir': sub}
     ok = res.get('exception') is None and not res.get('hung') and res.get('exit') == 0 and o['status'] == pl.SUCCESS
     o['ok'] = ok
